@@ -35,6 +35,15 @@ var propCfgs = []*propCfg{
 		Stub: []string{"harness callback vcb (behaviour table, start/end recording, fake-time delay)"},
 		Assumptions: simgoAssumptions,
 	},
+	{
+		ID: "C40", Level: "exploration", SimEngine: "simgo",
+		Quick:    tierCfg{Seeds: 1500, Secs: 70, Batch: 25},
+		Thorough: tierCfg{Seeds: 100000, Secs: 900, Batch: 50},
+		Rule: "one evaluation = one generated program (1..3 snippets: pipelines with early exit and failing stages, redirections > >> < <> to temp files, fd duplication/closing, output captures, peach, run-parallel, try/catch) evaluated 7 (thorough 21) times on one interpreter in one seeded simulation with the garbage collector off, optionally with a context cancellation at a tape-chosen step; after every evaluation /proc/self/fd (numbers and link targets) must equal the baseline taken after the first one, and at the end no goroutine may remain; distinct = distinct interleaving+fault signature; non-trivial = at least one scheduling choice",
+		Real: []string{"pkg/eval pipelineOp.exec, formOwnedPort.close, redirOp, PipePort/CapturePort/ValueCapturePort, IterateInputs, peach, run-parallel, exception paths, interrupts; real files and kernel pipes"},
+		Stub: []string{"signal delivery (context cancelled by the scheduler at a chosen step)"},
+		Assumptions: append([]string{"the garbage collector is disabled during a run so that os.File finalizers cannot close a leaked descriptor"}, simgoAssumptions...),
+	},
 }
 
 func findProp(id string) *propCfg {
